@@ -40,6 +40,15 @@ pub(crate) fn for_span(
     // always spill over into days so that hours/minutes/... will never exceed
     // 24/60/...
     if unit >= Unit::Day {
+        // ... except that it must be positive, like every other increment.
+        // (An increment of zero would otherwise be a division by zero.)
+        if increment <= 0 {
+            return Err(err!(
+                "rounding increment {increment} for {unit} must be \
+                 greater than zero",
+                unit = unit.plural(),
+            ));
+        }
         // We specifically go from NoUnits to NoUnits128 here instead of
         // directly to NoUnits128 to ensure our increment bounds match the
         // bounds of i64 and not i128.
